@@ -48,6 +48,7 @@ class Gen:
         self.slow_hint = []      # nodes whose completion schedules like to delay (ctl 'starve')
         self.pending_outside = []  # shared dependencies of candidates that the one-of consumer reads as well
         self.rec_inner_pool = []   # nodes inside finished recurrent subgraphs (hostile family rec_outside_consumer)
+        self.named_sw = []         # finished named SwitchCase marks (may be declared again by another node)
         self.force_nested = False  # nested_exhaust_shape: the next recurrent subgraph gets a nested one, exhausted on outer re-iteration
 
     def new_node(self, **kw):
@@ -243,6 +244,48 @@ class Gen:
         consumer['params'].extend(marks)
         self.slow_hint.extend([a['id'], f['id']])
 
+    def shared_switch_shape(self, consumer, visible):
+        """consumer(u: OneOf([A(s: W), B]), v: W) with one NAMED switch W = SwitchCase(D, [L0: K(a: Input(X)), L1: Y]) and
+        X failing late for some inputs: the main pipeline and the candidate's sub-pipeline both resolve the same switch
+        node and run the same case sub-pipeline, one with contained and one with reported failures."""
+        import copy
+        rng = self.rng
+
+        def plain(flag=None, dep='N0'):
+            n = self.new_node()
+            n['params'].append(['a', ['in', dep]])
+            if flag:
+                self.flags[n['id']].add(flag)
+            return n
+        x = plain()
+        x['plan']['fail'] = ['ALWAYS', rng.choice(['E1', 'E2', 'ERt'])]
+        ins = list(self.p['inputs'])
+        x['plan']['fail_when'] = sorted(rng.sample(ins, rng.randint(1, len(ins) - 1)))
+        self.finish(x)
+        k = plain('case', x['id'])
+        self.finish(k)
+        y = plain('case')
+        self.finish(y)
+        d = self.new_node(kind='decider')
+        self.flags[d['id']].add('decider')
+        d['params'].append(['a', ['in', 'N0']])
+        d['plan']['labels'] = ['L0', 'L1']
+        self.finish(d)
+        self.sw += 1
+        w = ['sw', f'sw{self.sw}', d['id'], [['L0', k['id']], ['L1', y['id']]]]
+        a = self.new_node()
+        self.flags[a['id']].add('cand')
+        a['params'].append(['s', copy.deepcopy(w)])
+        self.finish(a)
+        b = plain('cand')
+        self.finish(b)
+        n = len(consumer['params'])
+        marks = [[f'ss{n}', ['oneof', [a['id'], b['id']]]], [f'ss{n + 1}', copy.deepcopy(w)]]
+        if rng.random() < 0.5:
+            marks.reverse()
+        consumer['params'].extend(marks)
+        self.slow_hint.extend([x['id'], d['id']])
+
     def late_oneof_shape(self, consumer, visible):
         """consumer(p: OneOf([G, M]), q: Input(B)), M(v: OneOf([A, B])), G fails: the inner one-of starts late (only
         after G has failed) and finds its LATER candidate B already computed for the consumer; it still has to try A."""
@@ -333,6 +376,8 @@ class Gen:
             self.rec_paths_shape(node, local_visible)
         if not in_rec and not in_cand and depth > 0 and self.budget >= 6 and rng.random() < p.get('p_rec_parallel_shape', 0.0):
             self.rec_parallel_shape(node, local_visible)
+        if not in_rec and not in_cand and depth > 0 and self.budget >= 6 and rng.random() < p.get('p_shared_switch_shape', 0.02):
+            self.shared_switch_shape(node, local_visible)
         if not in_rec and depth > 0 and self.budget >= 5 and rng.random() < p.get('p_late_oneof_shape', 0.02):
             self.late_oneof_shape(node, local_visible)
         if not in_rec and depth > 0 and self.budget >= 4 and rng.random() < p.get('p_sibling_oneof_shape', 0.02):
@@ -352,6 +397,9 @@ class Gen:
                     if s_id not in [m[1] for _, m in node['params'] if m[0] == 'in']:
                         node['params'].append([f'q{len(node["params"])}', ['in', s_id]])
                 self.pending_outside = []
+            if mark[0] == 'rec' and rng.random() < p.get('p_dup', 0.04) * 2:
+                # the consumer of the recurrent result also reads the destination through a plain Input, declared first
+                node['params'].insert(len(node['params']) - 1, [f'zr{len(node["params"])}', ['in', mark[2]]])
             if mark[0] == 'rec':
                 inner = [x for x in self.last_sub if x != mark[2]]
                 self.rec_done[nid] = inner
@@ -385,6 +433,10 @@ class Gen:
         rng, p = self.rng, self.p
         r = rng.random()
         can_construct = self.budget >= 2 and depth > 0 and (not in_rec or p['rec_inner'])
+        if not in_rec and self.named_sw and rng.random() < p.get('p_reuse_switch', 0.05):
+            # the same named switch (one synthetic switch node) is consumed by another node as well
+            import copy
+            return copy.deepcopy(rng.choice(self.named_sw))
         if can_construct and r < p['p_sw']:
             return self.make_switch(visible, depth, in_rec, in_cand)
         if can_construct and r < p['p_sw'] + p['p_oneof']:
@@ -473,6 +525,8 @@ class Gen:
         name = None if rng.random() < p_un else f'sw{self.sw}'
         if name is None:
             self.unnamed_deciders.add(decider)
+        elif not in_rec and after_rec is None:
+            self.named_sw.append(['sw', name, decider, [list(c) for c in cases]])
         return ['sw', name, decider, cases]
 
     def contain_shape(self, c, visible):
